@@ -240,6 +240,26 @@ func runC12(c *core.Ctx) {
 	} else {
 		c.Note("discriminator doc failed to load: %v", err)
 	}
+	// property names that are not identifiers: a pointer token is the key itself, whatever characters it holds
+	for _, key := range []string{"a/b", "t~x", "~0", "~1", "", "0", "a b", "%2F", "é", "a.b", "$ref"} {
+		for _, s := range []gen.S{
+			{"type": "object", "properties": gen.S{key: gen.S{"type": "integer", "minimum": 1.0}}},
+			{"type": "object", "properties": gen.S{key: gen.S{"type": "object", "required": gen.Arr(key), "properties": gen.S{key: gen.S{"type": "string", "maxLength": 1.0}}}}},
+			{"type": "object", "additionalProperties": gen.S{"type": "array", "items": gen.S{"type": "object", "properties": gen.S{key: gen.S{"enum": gen.Arr("k")}}}}},
+			{"type": "object", "required": gen.Arr(key)},
+		} {
+			if c.Mine(idx) {
+				if sc, err := kinSchema(s); err == nil {
+					c.Cover("workload", "hostile-property-names")
+					c12Schema(c, modes, s, sc, "", []any{
+						gen.S{key: 0.0}, gen.S{key: 5.0}, gen.S{key: "x"}, gen.S{key: gen.S{}}, gen.S{key: gen.S{key: "toolong"}}, gen.S{key: gen.S{key: 3.0}},
+						gen.S{key: gen.Arr(gen.S{key: "k"}, gen.S{key: "no"})}, gen.S{"other": gen.Arr(gen.S{key: 1.0})}, gen.S{}, gen.S{"other": 1.0},
+					})
+				}
+			}
+			idx++
+		}
+	}
 	c12NonJSONNumbers(c, modes, atoms)
 	c12Directional(c)
 	n := c.Pick(15000, 600000)
